@@ -6,6 +6,7 @@ use crate::operator::*;
 use crate::standins::*;
 use crate::types::{BinaryOpType, UnaryOpType, ValType};
 use crate::val::*;
+use std::string::String;
 
 fn any_num() -> (f64, Val) {
     let a: f64 = kani::any();
@@ -929,3 +930,54 @@ macro_rules! short_circuit {
 short_circuit!(logic_and, And);
 //@harness name=logic_or tier=quick timeout=900 unwind=6 desc="`||` likewise (`true || e` does not evaluate e)" bounds="left kind in {bool,null,number,string} x right kind in 6 kinds, symbolic contents"
 short_circuit!(logic_or, Or);
+
+// ------------------------------------------------------------------------------------------------
+// string repetition (jrsonnet extension `"s" * n`): total, never the allocator's capacity panic
+// ------------------------------------------------------------------------------------------------
+//@harness name=str_repeat tier=quick timeout=300 unwind=6 desc="evaluate_mul_op on (string, number) and (number, string): a value or an error, never str::repeat's capacity-overflow panic" bounds="strings of 0..=4 bytes, count: every finite double"
+#[kani::proof]
+#[kani::unwind(6)]
+pub fn str_repeat() {
+    let n: usize = kani::any();
+    kani::assume(n <= 4);
+    let s = Val::Str(StrValue(IStr::from_bytes(&b"abcd"[..n])));
+    let (fc, c) = any_num();
+    let left: bool = kani::any();
+    #[cfg(verif_playback)]
+    {
+        println!("REPLAY-INPUT: len={} count={:e} ({:#x}) string_on_the_left={}", n, fc, fc.to_bits(), left);
+        if left {
+            println!("REPLAY-JSONNET: std.length(\"{}\" * {})", &"abcd"[..n], lit(fc));
+        } else {
+            println!("REPLAY-JSONNET: std.length({} * \"{}\")", lit(fc), &"abcd"[..n]);
+        }
+        // a count that fits but asks for more memory than there is ends in an allocation failure, which is
+        // outside the property: replay only what the solver reports (an overflowing product)
+        println!("REPLAY-EXPECT: nocrash");
+    }
+    let r = if left { bin(&s, BinaryOpType::Mul, &c) } else { bin(&c, BinaryOpType::Mul, &s) };
+    assert!(matches!(r, Ok(Val::Str(_)) | Err(_)), "C04.repeat.kind string repetition yields a string or an error");
+    kani::cover!(r.is_ok() && fc > 4.0e18 && n == 0, "huge count on the empty string reached");
+    kani::cover!(fc > 1.0e19 && n == 2, "count beyond usize reached");
+}
+
+//@harness name=std_repeat tier=quick timeout=300 unwind=6 desc="builtin_repeat on a string: a value or an error, never str::repeat's capacity-overflow panic" bounds="strings of 0..=4 bytes, count: every usize"
+#[kani::proof]
+#[kani::unwind(6)]
+pub fn std_repeat() {
+    use crate::stdrepeat::*;
+    let n: usize = kani::any();
+    kani::assume(n <= 4);
+    let count: usize = kani::any();
+    #[cfg(verif_playback)]
+    {
+        println!("REPLAY-INPUT: len={} count={}", n, count);
+        // std.repeat converts its count from a double <= 2^53 - 1: reach the same product with a longer string
+        println!("REPLAY-JSONNET: std.length(std.repeat(std.repeat(\"abcd\", 4096), 9007199254740991))");
+        println!("REPLAY-EXPECT: nocrash");
+    }
+    let r = builtin_repeat(Either2::A(IStr::from_bytes(&b"abcd"[..n])), count);
+    assert!(matches!(r, Ok(Val::Str(_)) | Err(_)), "C04.repeat.kind string repetition yields a string or an error");
+    kani::cover!(r.is_ok() && count > 1 << 62 && n == 0, "huge count on the empty string reached");
+    kani::cover!(r.is_err() && n == 1, "overflow reported as an error reached");
+}
